@@ -105,6 +105,7 @@ Definition agree (c : case) : bool :=
     opt_eqb step_eqb (merge s (ap_step a) (ap_step b)) merged &&
     (match merged, mres with
      | Some m, Some r => sresult_eqb (apply s m doc) r
+     | None, Some _ => false          (* how the harness records that Step.merge RAISED: the model's merge is total *)
      | _, _ => true
      end)
   | CCommute s doc a b a' b' ab ba _ =>
